@@ -54,6 +54,37 @@ def schedules(num, depth, seed, timeout=900, cfg="MC_MuxSched.cfg"):
     return res, int(ms.group(1)) if ms else 0
 
 
+def cover_schedules(cfg, timeout=3000, workers=8):
+    """Breadth-first model checking of MC_MuxSched.tla in cover mode (VIEW CoverView, invariant EmitNode): TLC prints, for
+    every node (command, resulting abstract state) of the bounded state graph, a shortest schedule reaching it.  A
+    schedule that is a prefix of another one is covered by it: only the maximal ones (the leaves of the breadth-first
+    spanning tree) are returned.  Returns (schedules, nodes, distinct states reported by TLC)."""
+    meta = tempfile.mkdtemp(prefix="cov_", dir=vlib.WORK)
+    cmd = ["timeout", str(timeout)] + vlib.tlc_cmd("MC_MuxSched.tla", cfg, workers, meta)
+    rc, out = vlib.run(cmd, timeout=timeout + 30, cwd=vlib.SPEC)
+    shutil.rmtree(meta, ignore_errors=True)
+    if "Invariant NoViolation is violated" in out:
+        raise vlib.ToolError("MC_MuxSched (cover): a specification monitor fired (triage the specification)")
+    if "Model checking completed. No error has been found." not in out:
+        raise vlib.ToolError("MC_MuxSched (cover) did not complete: " + out[-600:])
+    recs = []
+    for m in re.finditer(r'<<"SCHED", "(.*)">>', out):
+        rec = json.loads(m.group(1).encode().decode("unicode_escape"))
+        key = tuple(json.dumps(c, sort_keys=True) for c in rec["cmds"])
+        recs.append((key, rec))
+    nodes = len(recs)
+    recs.sort(key=lambda x: x[0])
+    leaves = []
+    for i, (key, rec) in enumerate(recs):
+        nxt = recs[i + 1][0] if i + 1 < len(recs) else ()
+        if len(nxt) > len(key) and nxt[:len(key)] == key:
+            continue
+        leaves.append(rec)
+    res = [s for s in (convert(r) for r in leaves) if s]
+    ms = re.search(r"(\d+) distinct states found", out)
+    return res, nodes, int(ms.group(1)) if ms else 0
+
+
 def fault_enumeration(bases, step=3):
     """C08: from fault-free schedules, inject every end-of-connection cause at every `step`-th prefix on
     each endpoint; the run to quiescence that follows must resolve everything."""
